@@ -297,6 +297,9 @@ def run(ctx):
     # 0 is an ordinary id / value / address: nothing int-valued may be tested by truthiness (nqsa/truth.py)
     from .. import truth
     truth.check(ctx, "C18.Z", ['netqasm.sdk.classical_communication.thread_socket.socket_hub', 'netqasm.sdk.classical_communication.thread_socket.socket'])
+    # a value remembered for later calls is keyed by every argument it depends on (nqsa/memo.py)
+    from .. import memo
+    memo.check(ctx, "C18.K", ['netqasm.sdk.classical_communication.thread_socket.socket_hub', 'netqasm.sdk.classical_communication.thread_socket.socket'])
 
 
 H = "netqasm/sdk/classical_communication/thread_socket/socket_hub.py"
